@@ -114,10 +114,12 @@ def correspond_su2(ctx, res):
             # (angle of a rounding-level number): compare the rebuilt matrices instead when sin(beta) is tiny
             if abs(math.sin(iv[1])) < 1e-6:
                 continue
-            d = np.abs(mv - iv)
-            d[0] = min(d[0], abs(d[0] - 2 * math.pi), abs(d[0] - 4 * math.pi))
-            d[2] = min(d[2], abs(d[2] - 2 * math.pi), abs(d[2] - 4 * math.pi))
-            err = float(d.max()) * abs(math.sin(iv[1]))
+            # same sheet of the double cover required (theorem euler_roundtrip is an exact equality): compare
+            # exp(i(alpha+gamma)/2), exp(i(alpha-gamma)/2) and beta; only a simultaneous 2pi shift of both is harmless
+            def key(v):
+                return np.array([math.cos((v[0] + v[2]) / 2), math.sin((v[0] + v[2]) / 2),
+                                 math.cos((v[0] - v[2]) / 2), math.sin((v[0] - v[2]) / 2), v[1]])
+            err = float(np.max(np.abs(key(mv) - key(iv)))) * abs(math.sin(iv[1]))
             tol = 1e-9
         else:
             err = float(np.max(np.abs(mv - iv))) / (1.0 + float(np.max(np.abs(iv))))
@@ -294,7 +296,8 @@ def search(ctx, res):
         Rr = SU2M.Rotation_z(tfc(eg)) * SU2M.Rotation_y(tfc(eb)) * SU2M.Rotation_z(tfc(ea))
         x = np.array([[R12["x"][i][j].numpy() for j in range(2)] for i in range(2)])
         y = np.array([[Rr["x"][i][j].numpy() for j in range(2)] for i in range(2)])
-        err = np.minimum(np.abs(x - y).max(axis=(0, 1)), np.abs(x + y).max(axis=(0, 1)))
+        # exact equality on the SU(2) element itself (NOT up to the sign of the double cover: half-integer spins see it)
+        err = np.abs(x - y).max(axis=(0, 1))
         # condition: near beta=0/pi the split of alpha,gamma is ill-defined but the product must still match
         i = int(np.argmax(err))
         # beta = acos(cos beta) has forward error ~ sqrt(ulp) ~ 2e-8 near beta = 0, pi: tolerance 1e-6
@@ -325,7 +328,7 @@ def search(ctx, res):
     Rr = SU2M.Rotation_z(e["gamma"]) * SU2M.Rotation_y(e["beta"]) * SU2M.Rotation_z(e["alpha"])
     x = np.array([[prod["x"][i][j].numpy() for j in range(2)] for i in range(2)])
     y = np.array([[Rr["x"][i][j].numpy() for j in range(2)] for i in range(2)])
-    err = np.minimum(np.abs(x - y).max(), np.abs(x + y).max())
+    err = np.abs(x - y).max()
     if err > 1e-6:
         res.fail("su2:euler-boost-product", "Euler angles of B(-w)Rz(a)B(w) do not reproduce the rotation: residual %.3g" % err, {"op": "euler-boost"})
     # inverse
